@@ -165,6 +165,40 @@ def bystander_programs(rng):
     return programs, contents, {"f": "init-f"}
 
 
+def shape_programs(rng):
+    """One name is a FILE for some clients and a DIRECTORY for others (`n` and `n/sub/x`), at once or one after the
+    other. The hub may refuse what cannot be carried out; it may not make room by dropping what it acknowledged."""
+    name = rng.pick(["n", "d/n", "notes"])
+    below = name + rng.pick(["/x", "/sub/x", "/a/b/c"])
+    contents = {"init-file": b"file that was here first " + rng.bytes(4).hex().encode(), "init-below": b"entry below that was here first " + rng.bytes(4).hex().encode()}
+    initial = {}
+    k = rng.below(3)
+    if k == 0:
+        initial[name] = "init-file"
+    elif k == 1:
+        initial[below] = "init-below"
+    nclients = rng.pick([2, 2, 3])
+    programs = []
+    for c in range(nclients):
+        prog = []
+        for j in range(rng.range(1, 3)):
+            path = rng.pick([name, below, below, name, "other"])
+            kind = rng.pick(["Put", "Put", "Put", "Get", "Delete", "List"])
+            if kind == "Put":
+                key = "c%d.%d" % (c, j)
+                contents[key] = (b"%d:%d:%s|" % (c, j, rng.bytes(3).hex().encode())) * rng.pick([1, 3, 2000])
+                prog.append(Op(c, "Put", path, expected=rng.pick(["seen", "none", "init"]), content=key, opno=j, pieces=rng.range(1, 3)))
+            elif kind == "Delete":
+                prog.append(Op(c, "Delete", path, expected=rng.pick(["seen", "init"]), opno=j))
+            elif kind == "Get":
+                prog.append(Op(c, "Get", path, opno=j))
+            else:
+                prog.append(Op(c, "List", opno=j))
+        prog.append(Op(c, "Bye", opno=99))
+        programs.append(prog)
+    return programs, contents, initial
+
+
 def clone_programs(programs):
     out = []
     for prog in programs:
@@ -177,10 +211,19 @@ class LinOp:
     __slots__ = ("id", "kind", "exp", "val", "call", "ret", "reply", "src")
 
 
-def lin_ops_for_path(run, path, final_hash):
+def shape_refusal(op):
+    """A write the hub answered with an Error because a file stands where a directory is needed or the reverse: the
+    client was told it failed, and it must have had no effect."""
+    m = str((op.reply or {}).get("msg", ""))
+    return op.kind in ("Put", "Delete") and (op.reply or {}).get("kind") == "Error" and any(t in m for t in ("Is a directory", "Not a directory", "os error 20", "os error 21", "File exists", "os error 17"))
+
+
+def lin_ops_for_path(run, path, final_hash, shape=False):
     ops = []
     n = 0
     for op in run.history:
+        if shape and op.path == path and shape_refusal(op):
+            continue
         if op.kind in ("Put", "Delete", "Get") and op.path == path:
             lo = LinOp()
             lo.id = n
@@ -382,8 +425,11 @@ def schedule_report(run, extra=None):
     return d
 
 
-def check_c03(run, mon, res_viol, counters):
-    """Linearizability per path + conflict-copy rule + final-state rules on one finished schedule."""
+def check_c03(run, mon, res_viol, counters, shape=False):
+    """Linearizability per path + conflict-copy rule + final-state rules on one finished schedule.
+    shape: programs in which one path is a file and a directory of another (`n` and `n/x`); a write refused with an
+    Error for that reason is left out of the history (no effect), everything else is judged as usual - in particular
+    an acknowledged file never vanishes because somebody needed a directory there."""
     tree = walk_root(run.root)
     paths = sorted({o.path for o in run.history if o.path})
     nodes_total = 0
@@ -392,7 +438,7 @@ def check_c03(run, mon, res_viol, counters):
         fin = None
         if p in tree:
             fin = run.b3.file(os.path.join(run.root, p))
-        ops = lin_ops_for_path(run, p, fin)
+        ops = lin_ops_for_path(run, p, fin, shape=shape)
         init = run.hash_of(run.initial.get(p))
         if len(ops) > 14:
             counters["keys_skipped_too_many_ops"] = counters.get("keys_skipped_too_many_ops", 0) + 1
@@ -412,6 +458,9 @@ def check_c03(run, mon, res_viol, counters):
             if tree.get(cname, (None,))[0] != ident(run.contents[op.content]):
                 res_viol.append(("C03|conflict-copy-missing-or-altered", schedule_report(run, {"path": cname, "present": cname in tree})))
         if op.kind in ("Put", "Delete") and op.reply and op.reply.get("kind") == "Error":
+            if shape and shape_refusal(op):
+                counters["writes_refused_for_a_file_directory_clash"] = counters.get("writes_refused_for_a_file_directory_clash", 0) + 1
+                continue
             res_viol.append(("C03|unexpected-error-reply", schedule_report(run, {"op": op.brief()})))
     for sig, det in dedupe(mon.viol):
         res_viol.append((sig, schedule_report(run, det)))
@@ -447,6 +496,35 @@ def overlap_stats(run, counters):
 
 
 # ------------------------------------------------------------------ C03 worker
+def c03_generated_case(rng, mode):
+    """Programs and strategy of one generated C03 schedule; the worker and `--replay` both build their case here,
+    drawing from the same stream in the same order."""
+    if mode == "shape":
+        programs, contents, initial = shape_programs(rng)
+        n = len(programs)
+        strat = RandomWalk(rng) if rng.chance(1, 2) else PCT(rng, 2 * n, d=rng.range(1, 3), horizon=rng.pick([40, 120]))
+    elif mode == "bystander":
+        programs, contents, initial = bystander_programs(rng)
+        n = len(programs)
+        strat = RandomWalk(rng) if rng.chance(2, 3) else PCT(rng, 2 * n, d=rng.range(1, 3), horizon=rng.pick([40, 120]))
+    else:
+        n = rng.pick([2, 2, 3, 3, 4])
+        programs, contents, initial = gen_programs(rng, n, big_ok=rng.chance(1, 2))
+        if n >= 3 and rng.chance(1, 3):
+            # contended: every write and delete names the initial hash of one shared path
+            for pr in programs:
+                for o in pr:
+                    if o.kind in ("Put", "Delete"):
+                        o.path = o.wire = "f"
+                        o.expected_spec = "init"
+            initial = {"f": "init-f"}
+        if mode == "pct":
+            strat = PCT(rng, 2 * n, d=rng.range(1, 3), horizon=rng.pick([40, 120, 300]))
+        else:
+            strat = RandomWalk(rng)
+    return programs, contents, initial, n, strat
+
+
 def _c03_worker(args):
     seedv, lo, hi, wroot, mode = args
     res = {"evaluations": 0, "distinct": set(), "viol": [], "counters": {}, "samples": [], "inconclusive": 0}
@@ -468,26 +546,8 @@ def _c03_worker(args):
             strat = Bounded(first, a, b)
             n = 2
             label = {"program": pname, "bounded": [first, a, b]}
-        elif mode == "bystander":
-            programs, contents, initial = bystander_programs(rng)
-            n = len(programs)
-            strat = RandomWalk(rng) if rng.chance(2, 3) else PCT(rng, 2 * n, d=rng.range(1, 3), horizon=rng.pick([40, 120]))
-            label = {"generator": mode, "index": idx, "clients": n}
         else:
-            n = rng.pick([2, 2, 3, 3, 4])
-            programs, contents, initial = gen_programs(rng, n, big_ok=rng.chance(1, 2))
-            if n >= 3 and rng.chance(1, 3):
-                # contended: every write and delete names the initial hash of one shared path
-                for pr in programs:
-                    for o in pr:
-                        if o.kind in ("Put", "Delete"):
-                            o.path = o.wire = "f"
-                            o.expected_spec = "init"
-                initial = {"f": "init-f"}
-            if mode == "pct":
-                strat = PCT(rng, 2 * n, d=rng.range(1, 3), horizon=rng.pick([40, 120, 300]))
-            else:
-                strat = RandomWalk(rng)
+            programs, contents, initial, n, strat = c03_generated_case(rng, mode)
             label = {"generator": mode, "index": idx, "clients": n}
         mon = StepMonitor("C03")
         run = HubRun(wd, n, programs, contents, initial, strat, rng, on_step=mon, b3=b3)
@@ -500,7 +560,7 @@ def _c03_worker(args):
             continue
         res["evaluations"] += 1
         found = []
-        check_c03(run, mon, found, cn)
+        check_c03(run, mon, found, cn, shape=(mode == "shape"))
         ov, stag, lock_order = overlap_stats(run, cn)
         lock_orders.add((str(label.get("program", "")), lock_order))
         if ov:
@@ -571,7 +631,7 @@ def measure_steps(pname):
 
 def c03(tier):
     build("cli", "shim", "vh")
-    r = Result("C03", "exploration", "one evaluation = one schedule of N in {2,3,4} real `copia serve` processes on one root, every file-system call under ROOT and every read(0) gated by the LD_PRELOAD shim, the driver playing the clients (unique Put contents, content cut into 1-5 pieces); generators: complete enumeration of all <= 2-pre-emption schedules of six two-client one-operation programs, PCT-style priorities, uniform random walk, scripted three-party programs (bystanders that connect and leave, foreign-commit chains, mixed-path writers); oracle: per-path Wing-Gong linearizability against a sequential CAS map (replies + final tree, List checked per path), conflict-copy present and intact for every non-committed Put, acknowledged content stays live until another writer can have replaced it (checked on a tree walk after EVERY step); distinct non-trivial = distinct step sequences in which two operations on one path overlapped in time")
+    r = Result("C03", "exploration", "one evaluation = one schedule of N in {2,3,4} real `copia serve` processes on one root, every file-system call under ROOT and every read(0) gated by the LD_PRELOAD shim, the driver playing the clients (unique Put contents, content cut into 1-5 pieces); generators: complete enumeration of all <= 2-pre-emption schedules of six two-client one-operation programs, PCT-style priorities, uniform random walk, scripted three-party programs (bystanders that connect and leave, foreign-commit chains, mixed-path writers), file-versus-directory programs (one name is a file for some clients and a directory for others; a write refused with an Error for that reason counts as having no effect); oracle: per-path Wing-Gong linearizability against a sequential CAS map (replies + final tree, List checked per path), conflict-copy present and intact for every non-committed Put, acknowledged content stays live until another writer can have replaced it (checked on a tree walk after EVERY step); distinct non-trivial = distinct step sequences in which two operations on one path overlapped in time")
     th = tier == "thorough"
     wroot = workdir("c03")
     jobs = []
@@ -601,10 +661,14 @@ def c03(tier):
     per = max(1, nby // (NCPU * 2))
     for lo in range(0, nby, per):
         jobs.append((seed(), lo, min(nby, lo + per), wroot, "bystander"))
+    nsh = 4000 if th else 320
+    per = max(1, nsh // (NCPU * 2))
+    for lo in range(0, nsh, per):
+        jobs.append((seed(), lo, min(nsh, lo + per), wroot, "shape"))
     fold(r, run_jobs(_c03_worker, jobs))
     rmtree(wroot)
     r.extra["enumerated_schedules"] = enum_total
-    r.assumptions = ["steps are libc calls: one large write is one step (kernel atomicity of a single write is trusted)", "only the first read()/readdir() on each open descriptor is a scheduling point", "List is checked per path (the hub documents per-file atomicity); degenerate paths are exercised in C11/C12", "interleavings needing >= 3 pre-emptions are reached only by the PCT/random generators"]
+    r.assumptions = ["steps are libc calls: one large write is one step (kernel atomicity of a single write is trusted)", "only the first read()/readdir() on each open descriptor is a scheduling point", "List is checked per path (the hub documents per-file atomicity); degenerate paths (empty, `.`, trailing slash) are exercised in C11/C12", "interleavings needing >= 3 pre-emptions are reached only by the PCT/random generators"]
     if tier == "thorough":
         asan_stage(r, "C03")
     finish(r, tier)
@@ -2450,6 +2514,7 @@ def replay_schedule(pid, rp):
     seedv = int(rp.get("seed", 1))
     label = wit.get("label", {})
     b3 = B3()
+    alias_rng = None
     if pid == "C03":
         if "program" in label:
             P, contents = two_op_programs()
@@ -2459,8 +2524,8 @@ def replay_schedule(pid, rp):
         else:
             mode, idx = label["generator"], label["index"]
             rng = SplitMix.derive(seedv, "c03", str(mode), idx)
-            n = rng.pick([2, 2, 3])
-            programs, contents, initial = gen_programs(rng, n, big_ok=rng.chance(1, 2))
+            programs, contents, initial, n, _strat = c03_generated_case(rng, mode)
+            alias_rng = rng
     else:
         mode, idx = label.get("mode"), label.get("index")
         if mode == "badput":
@@ -2482,6 +2547,8 @@ def replay_schedule(pid, rp):
     mon = StepMonitor(pid)
     wd = workdir("replay")
     run = HubRun(wd, n, programs, contents, initial, Replay(wit["choices"]), SplitMix(seedv), on_step=mon, b3=b3)
+    if alias_rng is not None and alias_rng.chance(1, 4):
+        run.root_alias = {i: alias_rng.pick(["", "/.", "//", "/./"]) for i in range(n)}
     run.run()
     print("replayed %d steps (%d recorded choices)%s" % (run.step, len(wit["choices"]), " INCONCLUSIVE: " + run.inconclusive if run.inconclusive else ""))
     for st, actor, what in run.trace:
@@ -2493,7 +2560,7 @@ def replay_schedule(pid, rp):
     found = []
     cn = {}
     if pid == "C03":
-        check_c03(run, mon, found, cn)
+        check_c03(run, mon, found, cn, shape=(label.get("generator") == "shape"))
     else:
         for sig, det in dedupe(mon.viol):
             found.append((sig, det))
